@@ -111,10 +111,11 @@ def tokenize(s):
 class P:
     """recursive descent: boolean and integer expressions; ASTs are tuples"""
 
-    def __init__(self, text):
+    def __init__(self, text, locals_=None):
         self.text = text
         self.t = tokenize(text)
         self.i = 0
+        self.locals = locals_ or {}   # name of a boolean local -> AST of the expression it was initialised with
 
     def peek(self):
         return self.t[self.i] if self.i < len(self.t) else ("end", None)
@@ -197,6 +198,9 @@ class P:
 
     def bprimary(self):
         k, v = self.peek()
+        if k == "id" and v in self.locals:
+            self.eat()
+            return self.locals[v]
         if k == "id" and v in BVARS:
             self.eat()
             return ("bvar", v)
@@ -224,8 +228,8 @@ class P:
         raise TranslateError("comparison expected in %r" % self.text)
 
 
-def parse_b(text):
-    p = P(text)
+def parse_b(text, locals_=None):
+    p = P(text, locals_)
     e = p.bexpr()
     p.done()
     return e
